@@ -128,7 +128,7 @@ class HistAdapter(Adapter):
     engine = "hist"
     level = "exploration"
     components = HIST_COMPONENTS
-    RUNS = {"quick": 55000, "thorough": 1500000}
+    RUNS = {"quick": 25000, "thorough": 800000}
     assumptions = [
         "NumPy's concatenate/column_stack/take/boolean selection are the reference semantics",
         "arguments are kept inside each operation's documented domain by the generator's guards",
@@ -201,7 +201,7 @@ class PooledAdapter(Adapter):
     engine = "sched"
     level = "exploration"
     components = SCHED_COMPONENTS
-    RUNS = {"quick": 1500, "thorough": 40000}
+    RUNS = {"quick": 1100, "thorough": 30000}
     SELFTEST = {"quick": 6, "thorough": 16}
     required_probes = ("pooled_runs_engaged", "strategy_uniform",
                        "strategy_pct", "strategy_targeted", "strategy_rtc", "strategy_burst", "strategy_lockstep", "switches_with_2+_tasks_in_flight",
@@ -398,14 +398,14 @@ REGISTRY = {
     "C06": HistAdapter("C06", HIST_PROBES),
     "C07": HistAdapter("C07", HIST_PROBES),
     "C15": HistAdapter("C15", HIST_PROBES + ("c15_library_chosen_common_checked", "c15_equality_pairs")),
-    "C10": StorageAdapter("C10", "exploration", {"quick": 220000, "thorough": 6000000},
+    "C10": StorageAdapter("C10", "exploration", {"quick": 200000, "thorough": 6000000},
                           probes=("index_derived_cases", "empty_entry_sets", "cases_with_empty_rowid_array",
                                   "wmode_raw", "wmode_bufw", "wmode_bufrw", "wmode_append", "wmode_bufappend", "c_level_blocks",
                                   "probe_earlier_load_rechecked_after_next_load")),
     "C11": StorageAdapter("C11", "exploration", {"quick": 90000, "thorough": 2500000},
                           probes=("scale_total_ge_2^30", "scale_total_ge_2^32", "ref_to_lib_iw8_rw8",
                                   "ref_to_lib_iw1_rw1", "lib_to_ref_files")),
-    "C12": StorageAdapter("C12", "fault_enumeration", {"quick": 20000, "thorough": 400000},
+    "C12": StorageAdapter("C12", "fault_enumeration", {"quick": 12000, "thorough": 300000},
                           probes=("fault_crash_at_byte", "fault_disk_full", "cut_region_magic",
                                   "cut_region_version", "cut_region_size_word", "cut_region_header",
                                   "cut_region_coordinates", "cut_region_lengths", "cut_region_rowids",
